@@ -29,6 +29,53 @@ static int32_t g_live_blocks;
 static int32_t g_frees;
 static int32_t g_links;       // blocks taken from the 32-byte pool (then-chain links)
 static int32_t g_link_frees;
+#ifndef VF_CHECK_BUSY
+#define VF_CHECK_BUSY 0
+#endif
+// VF_CHECK_BUSY (single-block harnesses): g_busy[t] != 0 while model thread t is inside an operation on the shared
+// state through a reference it owns (set/cleared by the harness); the block must not be released under it.
+static uint8_t g_busy[4];
+
+// Typing hints for the solver (no semantic content: the block is malloc(4 << ordinal) in every case).  The
+// translator gives a dynamic object the type its address is first cast to; an object typed after the layout
+// of what will live in it (then-chain link: four pointers; future shared state: vptr, result, exception_ptr,
+// allowInline_, status_, refCount_, taskSetCounter_, thenChain_, functor storage) keeps CBMC's points-to sets
+// of the pointers stored in it exact.  Without the hint the first cast is the vptr / next-pointer store and the
+// block becomes an array of such pointers that is then accessed at other types (measured: conversion of the
+// then() harness did not finish in 10 minutes; with the hint see NOTES.md).  The store into the padding word /
+// the not yet initialised invoke field only keeps the cast alive through clang -O1.
+struct SbaImplHead {
+  void* vptr;
+  uint64_t result;
+  void* exception;
+  uint8_t allowInline;
+  uint8_t pad0[3];
+  uint32_t status;
+  uint32_t refCount;
+  uint32_t pad1;
+  void* taskSetCounter;
+  void* thenChain;
+};
+struct SbaBlk32 {
+  void* next;
+  void* impl;
+  void* schedulable;
+  void* invoke;
+};
+struct SbaBlk64 {
+  SbaImplHead h;
+  uint64_t f0;
+};
+struct SbaBlk128 {
+  SbaImplHead h;
+  uint64_t f0;
+  void* f1;
+  uint64_t rest[7];
+};
+static_assert(sizeof(SbaBlk32) == 32 && sizeof(SbaBlk64) == 64 && sizeof(SbaBlk128) == 128, "block layouts");
+#ifndef VF_SBA_TYPED
+#define VF_SBA_TYPED 1
+#endif
 
 namespace dispenso {
 namespace detail {
@@ -36,7 +83,25 @@ namespace detail {
 // pool it came from, once.
 char* allocSmallBufferImpl(size_t ordinal) {
   VfAtomic a;
-  char* p = static_cast<char*>(::malloc(size_t{4} << ordinal));
+  char* p;
+#if VF_SBA_TYPED
+  if (ordinal == 3) {
+    SbaBlk32* b = static_cast<SbaBlk32*>(::malloc(32));
+    b->invoke = nullptr;
+    p = reinterpret_cast<char*>(b);
+  } else if (ordinal == 4) {
+    SbaBlk64* b = static_cast<SbaBlk64*>(::malloc(64));
+    b->h.pad1 = 0;
+    p = reinterpret_cast<char*>(b);
+  } else if (ordinal == 5) {
+    SbaBlk128* b = static_cast<SbaBlk128*>(::malloc(128));
+    b->h.pad1 = 0;
+    p = reinterpret_cast<char*>(b);
+  } else
+#endif
+  {
+    p = static_cast<char*>(::malloc(size_t{4} << ordinal));
+  }
   vf_check(g_nblk < kMaxBlk, "harness bound: number of small-buffer blocks");
   if (g_nblk < kMaxBlk) {
     g_blk[g_nblk].p = p;
@@ -53,7 +118,8 @@ char* allocSmallBufferImpl(size_t ordinal) {
 static inline bool blk_release(int32_t i, size_t ordinal, void* buf) {
   if (i < g_nblk && g_blk[i].p == buf && g_blk[i].live == 1) {
 #if VF_CHECK_POOL
-    vf_check(g_blk[i].ordinal == ordinal, "small-buffer block is returned to the pool it came from");
+    // small_buffer_allocator.h: "must be returned to the pool via deallocSmallBuffer templatized on the same block size"
+    vf_check(g_blk[i].ordinal == ordinal, "block released to a different size class than it was allocated from");
 #endif
     if (g_blk[i].ordinal == VF_LINK_ORDINAL) {
       ++g_link_frees;
@@ -67,6 +133,13 @@ static inline bool blk_release(int32_t i, size_t ordinal, void* buf) {
 }
 void deallocSmallBufferImpl(size_t ordinal, void* buf) {
   VfAtomic a;
+#if VF_CHECK_BUSY
+  {
+    int self = vf_self();
+    bool others = (self != 0 && g_busy[0]) || (self != 1 && g_busy[1]) || (self != 2 && g_busy[2]) || (self != 3 && g_busy[3]);
+    vf_check(!others, "shared state released while another thread is still operating on it through its own reference");
+  }
+#endif
   bool found = blk_release(0, ordinal, buf) || (kMaxBlk > 1 && blk_release(1, ordinal, buf)) ||
       (kMaxBlk > 2 && blk_release(2, ordinal, buf)) || (kMaxBlk > 3 && blk_release(3, ordinal, buf)) || (kMaxBlk > 4 && blk_release(4, ordinal, buf));
   vf_check(found, "deallocSmallBuffer is called with a live block (no double release)");
